@@ -15,8 +15,12 @@ claimed = {
          "NOT decided: build-name annotation and de-duplication in printDiagnostics, gob decoding of -merge inputs, -matrix parsing; order independence follows from the set-level postcondition (paper step)", "DESIGN.md §7 C12"),
  "C13": ("proof of the lattice laws the solvers rely on: nilness lattice (table read from source) associativity, commutativity, idempotence, identity, closure over the full domain; dfa.DenseMapLattice and dfa.MapLattice Merge are pointwise merges and satisfy the four laws pointwise for every element semilattice; worklist bitmap of the dense solver (enqueue/dequeue against a set view)",
          "assumed: the element lattice satisfies the semilattice laws (that is the hypothesis of the statement), container/heap touches only the heap slice; NOT decided: that the dense and sparse solvers reach the least fixpoint, DenseMapLattice.Equals, termination", "DESIGN.md §7 C13"),
+ "C14": ("proof that the pre/post numbering of the dominator tree makes Dominates exact: numberDomTree assigns numbers such that interval containment equals the subtree relation (for all forests, unbounded), Dominates/Idom/Dominees read exactly those fields, both listings contain every block; BOUNDED (not proof): the Lengauer-Tarjan core buildDomTree is run on every CFG with <= 4 (quick) / <= 5 (thorough) blocks incl. a disjoint recover region and compared with the definition of dominance",
+         "assumed: the forest axioms (sub/cidx/csum exist for every finite forest; paper step), sort.Slice permutes; NOT decided beyond the bound: exactness of idom computed by Lengauer-Tarjan for more than 5 blocks", "DESIGN.md §7 C14"),
  "C15": ("proof that the nilness join is sound w.r.t. the concretisation (gamma) for all 25 pairs per component, and that the merge table stays a semilattice",
          "NOT decided: local soundness of the transfer rules in processBlock, fact import/export, SA4023; the standard abstract-interpretation argument from local soundness to global soundness is a paper step", "DESIGN.md §7 C15"),
+ "C17": ("proof that the U1000 verdict is a function of the edge set and merged over variants as stated: SerializedGraph.color is a sound and complete reachability colouring (seen contains the root, is closed under use edges, and is contained in every edge-closed predicate containing the root), quieten never touches the seen bits, Results partitions the nodes by (seen, quiet), and linter.lint keys Used and Unused objects identically and reports exactly the collected unused objects whose key no result marked used",
+         "assumed: the least-fixpoint step from (closed, contains root, contained in every closed predicate) to 'seen == reachable' (paper), monotonicity of reachability in the edge set (paper); NOT decided: that the AST walk produces the same edge set under file/declaration permutation, SerializedGraph.Merge (whole-program mode)", "DESIGN.md §7 C17"),
  "C19": ("proof of the layout arithmetic of structlayout-optimize: align (least multiple >= x), offsetsof against the recursive layout spec, size, Swap, Less is the documented order and a strict weak order",
          "NOT decided yet: gcsizes vs the compiler's rules, structlayout.sizes tiling, pad/combine, minimality", "DESIGN.md §7 C19"),
  "C20": ("proof that a version-restricted problem is reported exactly when the effective language and standard-library versions lie in the range: report.Report (iff), the four option setters set exactly their own field (frame), code.StdlibVersion / LanguageVersion follow the documented rules",
